@@ -22,6 +22,7 @@ import (
 	"encoding/json"
 	"errors"
 	"fmt"
+	"github.com/mimiro-io/datahub/internal/verifhook"
 	"sync"
 	"sync/atomic"
 	"time"
@@ -122,6 +123,7 @@ func (ds *Dataset) RefreshFullSyncLease(fullSyncID string) error {
 				currentFsID := ds.fullSyncID
 
 				<-ctx.Done()
+				verifhook.Point("ds.lease.afterDone")
 				endTime, ok := ctx.Deadline()
 				// time out was the cause
 				now := time.Now()
@@ -157,6 +159,7 @@ func (ds *Dataset) ReleaseFullSyncLease(fullSyncID string) error {
 
 // CompleteFullSync Full sync completed - mark unseen entities as deleted
 func (ds *Dataset) CompleteFullSync(ctx context.Context) error {
+	verifhook.Point("ds.completeFullSync.begin")
 	defer func() {
 		ds.fullSyncStarted = false
 		ds.fullSyncSeen = make(map[uint64]int) // release sync state
@@ -223,12 +226,15 @@ func (ds *Dataset) StoreEntities(entities []*Entity) (Error error) {
 		return nil
 	}
 
+	verifhook.LockWait("ds:" + ds.ID)
 	ds.WriteLock.Lock()
+	verifhook.LockHeld("ds:" + ds.ID)
 	writeLockStart := time.Now()
 	// release lock at end regardless
 	defer func() {
 		_ = ds.store.statsdClient.Timing("ds.writeLock.time", time.Since(writeLockStart), tags, 1)
 		ds.WriteLock.Unlock()
+		verifhook.LockFree("ds:" + ds.ID)
 	}()
 
 	// need this to ensure time moves forward in high perf environments.
@@ -243,20 +249,24 @@ func (ds *Dataset) StoreEntities(entities []*Entity) (Error error) {
 		return err
 	}
 
+	verifhook.Point("ds.store.beforeIDCommit")
 	err = ds.store.commitIDTxn()
 	if err != nil {
 		return err
 	}
+	verifhook.Point("ds.store.afterIDCommit")
 
 	err = txn.Commit()
 	if err != nil {
 		return err
 	}
+	verifhook.Point("ds.store.afterCommit")
 
 	err = ds.updateDataset(newitems, entities)
 	if err != nil {
 		return err
 	}
+	verifhook.Point("ds.store.afterUpdateDataset")
 
 	return nil
 }
